@@ -513,6 +513,18 @@ def check_C07(tier, replay):
                     jobs.append(ej.job(f"honest.n{n}.c{ci}.pe{pe}", c, ej.rand_inputs(rng, c), pe, list(range(n)), cap=1,
                                        pol=ej.policy(rng, n), events=False, probes=True, fields=True,
                                        tag={"judge": list(range(n)), "triples": (n == 2 and ci == 0 and not q), "c": -1}))
+        # a circuit that loads one input bit of a party into two registers (two Input instructions naming the same bit, a
+        # second declared bit stays unused): every Input instruction is a wire of its own, with its own label
+        I = ej.inst
+        for n in (2, 3):
+            insts = [I("I", 0, 0, 0), I("I", 1, 0, 1), I("I", 1, 0, 2)] + ([I("I", 2, 0, 3)] if n == 3 else [])
+            k = len(insts)
+            insts += [I("A", 1, 0, k), I("A", 2, 0, k + 1), I("X", k, k + 1, k + 2)]
+            dup = {"input_regs": [1, 2] + ([1] if n == 3 else []), "insts": insts, "max_reg": k + 3, "output_regs": [k + 2, k], "and_ops": 2}
+            for r in range(6 if q else 16):
+                jobs.append(ej.job(f"dupinput.n{n}.{r}", dup, ej.rand_inputs(rng, dup), r % n, list(range(n)), cap=1,
+                                   pol=ej.policy(rng, n), events=False, probes=True, fields=True,
+                                   tag={"judge": list(range(n)), "triples": False, "c": -1}))
         # under attack: every preprocessing / online deviation of Adversary.tla; the honest parties' keys are judged
         for (name, circ, n, pe, po, c) in adv.configs("C07", tier, rng):
             for fam in ("pre", "online"):
